@@ -783,6 +783,11 @@ func editRecord(c *hx.Ctx, ec editCase, proj string) *editRun {
 	c.Check("map-order-independent", same, "", mo, "three runs of the same sequence gave different results: "+ec.String())
 	fn := map[string]string{"typed": "EditTyped", "syntax": "EditSyntax", "set": "EditAll", "all": "EditAll", "format": "EditFormat"}[proj]
 	c.Case(fn, arg, editResult(first, proj))
+	if garbage, _ := seqFlags(ec.Ops); !garbage && first.panicAt < 0 {
+		// the theorem statements (coherence before and after, errors and final typed
+		// lists as the keyed model predicts, valid arguments) evaluated inside the model
+		c.Case("EditInv", arg, wire.L(wire.Bool(true), wire.Bool(true), wire.Bool(true), wire.Bool(true), wire.Bool(true)))
+	}
 	for _, o := range ec.Ops {
 		c.Count("op:" + o.Name)
 	}
